@@ -19,6 +19,9 @@ Decided:
   R11.4  long-time curves: t_s = H^2 / (9 alpha) with alpha = k / rhoCp, times = exp(log_time) * t_s, one
          curve and one radius stored per height; boundary condition MIFT, 8 unequal segments, equivalent
          solver are the defaults and no caller overrides them; the equivalent height is B / (B/H)
+  R11.7  every return of g_function_interpolation pairs a curve with the radius of the SAME height: a stored curve
+         g_lts[K] is returned with r_b_values[K] (the same key expression), an interpolated curve with the radius
+         table evaluated at the same equivalent height
   R11.6  long-time axis: walking back from GFunction.log_time through every store, constructor parameter and call
          site, the axis is handed over unchanged (no sort / slice / arithmetic / in-place change) and originates
          only from eskilson_log_times() (or from the object's own gFunction.log_time in the rebuild); that function
@@ -56,7 +59,59 @@ def check(prog: Program, tier: str) -> Result:
     _longtime(prog, res)
     _interp_table(prog, res)
     _axis(prog, res)
+    _return_pairs(prog, res)
     return res
+
+
+def _return_pairs(prog: Program, res: Result):
+    q = f"{GF}.GFunction.g_function_interpolation"
+    fi = prog.func(q)
+    from ..model import walk_no_nested
+
+    rets = [r for r in walk_no_nested(fi.node) if isinstance(r, ast.Return) and r.value is not None]
+    eng = Engine(prog, fi, Hooks())
+    n = 0
+    for r in rets:
+        v = r.value
+        if not (isinstance(v, ast.Tuple) and len(v.elts) >= 2):
+            raise AnalysisError(f"{q}: a return is not (curve, radius, ...)")
+        curve = inline_single_defs(fi.node, v.elts[0], depth=2)
+        rad = inline_single_defs(fi.node, v.elts[1], depth=2)
+        # a local bound more than once (g_function / rb are assigned in several branches): take the binding in the same block
+        def local_def(name_node, ret):
+            if not isinstance(name_node, ast.Name):
+                return name_node
+            best = None
+            for s_ in walk_no_nested(fi.node):
+                if isinstance(s_, ast.Assign) and len(s_.targets) == 1 and isinstance(s_.targets[0], ast.Name) and s_.targets[0].id == name_node.id and s_.lineno < ret.lineno:
+                    if best is None or s_.lineno > best.lineno:
+                        best = s_
+            return best.value if best is not None else name_node
+        curve = local_def(curve, r)
+        rad = local_def(rad, r)
+        if isinstance(curve, ast.Subscript) and attr_chain(curve.value) == "self.g_lts":
+            n += 1
+            st = State()
+            for p_ in fi.params():
+                st.env[p_] = Rat.atom(p_)
+            kc = ast.unparse(inline_single_defs(fi.node, curve.slice, depth=2))
+            ok = isinstance(rad, ast.Subscript) and attr_chain(rad.value) == "self.r_b_values" and ast.unparse(inline_single_defs(fi.node, rad.slice, depth=2)) == kc
+            res.ob("R11.7", f"a stored curve g_lts[{kc}] is returned with the radius stored for the same height", ok, prog.loc(fi, r))
+            if not ok:
+                res.violation("R11.7", f"pair|{kc}|{ast.unparse(rad)[:40]}", prog.loc(fi, r), q,
+                              f"the curve stored for height {kc} is returned together with the radius {ast.unparse(rad)[:60]}: the radius correction then uses the radius of another height")
+        elif len(v.elts) == 4:
+            he = ast.unparse(v.elts[3])
+            okr = (isinstance(rad, ast.Call) and isinstance(rad.func, ast.Subscript) and attr_chain(rad.func.value) == "self.interpolation_table"
+                   and isinstance(rad.func.slice, ast.Constant) and rad.func.slice.value == "rb" and len(rad.args) == 1 and ast.unparse(rad.args[0]) == he)
+            res.ob("R11.7", f"the interpolated curve is returned with the radius table evaluated at the same height ({he})", okr, prog.loc(fi, r))
+            if not okr:
+                res.violation("R11.7", f"pair-interp|{ast.unparse(rad)[:50]}", prog.loc(fi, r), q,
+                              f"the interpolated curve (at {he}) is returned with the radius {ast.unparse(rad)[:60]}, which is not the radius table evaluated at that height")
+    res.count("interpolation_returns", len(rets))
+    res.floor("interpolation_returns", 2)
+    if n < 1:
+        raise AnalysisError(f"{q}: the single-curve return (stored curve with its radius) was not found")
 
 
 def _num(e):
@@ -324,6 +379,15 @@ def _correction(prog: Program, res: Result):
     q = f"{GF}.GFunction.borehole_radius_correction"
     fi = prog.func(q)
     res.analysed(q)
+    # corrected values must not be written back into a stored curve: the next call would correct them again (C13's R13.7 machinery)
+    from . import c13
+
+    tmp = Result("C13")
+    c13._check_param_mutation(prog, tmp)
+    hits = [f for f in tmp.findings if "borehole_radius_correction" in f.key]
+    res.ob("R11.2", "the correction does not overwrite a stored long-time curve (it builds a new list, or no caller hands it stored state)", not hits, prog.loc(fi, fi.node))
+    for f in hits:
+        res.violation("R11.2", "in-place|" + f.key.split("|", 1)[-1][:80], f.where, f.func, f.message + " - from the second call on the long-time points carry the correction more than once")
     ps = fi.params()
     if ps != ["g_function", "rb", "rb_star"]:
         raise AnalysisError(f"{q}: parameter list changed: {ps}")
@@ -676,6 +740,14 @@ def _longtime(prog: Program, res: Result):
 
 
 VARIANTS = [
+    Variant("stored-height fast path returns the first height's radius (seeded C11_f)", "break",
+            [(GF, "        # if the interpolation kind is default, use what we know about the\n", "        if h_eq in self.g_lts:\n            g_function = self.g_lts[h_eq]\n            rb = self.r_b_values[height_values[0]]\n            return g_function, rb, self.d, h_eq\n\n        # if the interpolation kind is default, use what we know about the\n")], "R11.7"),
+    Variant("stored-height fast path returns the curve with its own radius", "benign",
+            [(GF, "        # if the interpolation kind is default, use what we know about the\n", "        if h_eq in self.g_lts:\n            g_function = self.g_lts[h_eq]\n            rb = self.r_b_values[h_eq]\n            return g_function, rb, self.d, h_eq\n\n        # if the interpolation kind is default, use what we know about the\n")]),
+    Variant("radius table evaluated at the largest stored height", "break",
+            [(GF, '        rb_value = self.interpolation_table["rb"](h_eq)\n', '        rb_value = self.interpolation_table["rb"](max(height_values))\n')], "R11.7"),
+    Variant("radius correction written back into the list it is given (seeded C11_e)", "break",
+            [(GF, "        g_function_corrected = []\n        for g in g_function:\n            g_function_corrected.append(g - log(rb_star / rb))\n        return g_function_corrected", "        correction = log(rb_star / rb)\n        for i, g in enumerate(g_function):\n            g_function[i] = g - correction\n        return g_function")], "R11.2"),
     Variant("two entries of Eskilson's table exchanged", "break", [("ghedesigner.utilities", "        -3.963,\n        -3.27,\n", "        -3.27,\n        -3.963,\n")], "R11.6"),
     Variant("a table entry repeated (axis not strictly increasing)", "break", [("ghedesigner.utilities", "        2.275,\n        3.003,\n", "        2.275,\n        2.275,\n        3.003,\n")], "R11.6"),
     Variant("Eskilson's table returned through a local", "benign", [("ghedesigner.utilities", "    # Return a list of Eskilson's original 27 dimensionless points in time\n    return [", "    # Return a list of Eskilson's original 27 dimensionless points in time\n    log_times = [")
